@@ -56,6 +56,17 @@ func ruleR08j(c *Ctx, rule string, floor int) {
 				if g == nil || fnPkgPath(origin(g)) != pkgCompiler || g.Signature.Results().Len() < 2 || !isTypeT(g.Signature.Results().At(0).Type()) {
 					continue
 				}
+				// the static type of a sub-expression: the callee is given a node of the parse tree (a helper that maps a
+				// keyword to the type it declares is not a check of anything)
+				visits := false
+				for i := 0; i < g.Signature.Params().Len(); i++ {
+					if typeFromPkg(g.Signature.Params().At(i).Type(), modPath+"/internal/machine/script/parser") {
+						visits = true
+					}
+				}
+				if !visits {
+					continue
+				}
 				var ty ssa.Value
 				for _, r := range *call.Referrers() {
 					if ex, ok := r.(*ssa.Extract); ok && ex.Index == 0 {
@@ -153,4 +164,13 @@ func ruleR08j(c *Ctx, rule string, floor int) {
 	if n < floor {
 		c.undecided(rule, "floor:checked-types", token.NoPos, fmt.Sprintf("expected at least %d call sites whose static type is compared with a constant, found %d", floor, n))
 	}
+}
+
+func typeFromPkg(t types.Type, pkg string) bool {
+	t = types.Unalias(t)
+	if p, ok := t.(*types.Pointer); ok {
+		t = types.Unalias(p.Elem())
+	}
+	n, ok := t.(*types.Named)
+	return ok && n.Obj().Pkg() != nil && n.Obj().Pkg().Path() == pkg
 }
